@@ -1,8 +1,174 @@
 import Drive.Util
-/-! Trace validator for the `tree` stream(s).  (stub: to be filled in) -/
-namespace Drive.Tree
+import Std.Data.HashMap
+import RV.Model.TreeFile
+/-!
+Trace validator for the `tree` (in-memory, C10) and `treefile` (persistent, C16) streams.
 
-def run (_h : IO.FS.Stream) : IO Verdict :=
-  return { ok := false, lines := 0, checks := 0, msg := "component tree not implemented" }
+Records (one per line):
+```
+tree cfg <pageSize> <maxKeys>          page size of the following trees
+new mem | new file                     NewTree / NewTreePersistent on a fresh file
+set <k> <v> ok|panic                   Tree.Set
+get <k> <val>|panic                    Tree.Get
+del <ts>                               Tree.DeleteBelow
+iter <n> (<k> <v> <r>)*                Tree.IterateKV: the pairs handed to the callback, in order, and its answers
+reset                                  Tree.Reset
+stats <leafKeys> <numPages> <pagesFree> <allocated> <bytes>
+walk <nextPage> <freePage> <nfree> <free…>     canonical walk: allocator part
+node <pid> <stored> <leaf> <N> (<k> <v>)*      … one reachable node, pre-order
+endwalk <nnodes>
+reopen <fileSize>                      Close + NewTreePersistent: the model runs reinit (encode t)
+```
+Every output, every statistic and every walk is compared with the model.
+-/
+namespace Drive.Tree
+open RV.Tree
+
+structure St where
+  cfg : Cfg := Cfg.ofPageSize 4096
+  t : Option Tree := none
+  pending : Option (List WalkNode) := none     -- nodes of the walk being compared
+  seen : Nat := 0
+
+def kvs? : List String → Option (List (Key × Val))
+  | [] => some []
+  | k :: v :: rest =>
+    match u64? k, u64? v, kvs? rest with
+    | some k, some v, some r => some ((k, v) :: r)
+    | _, _, _ => none
+  | _ => none
+
+def triples? : List String → Option (List (Key × Val × Val))
+  | [] => some []
+  | k :: v :: r :: rest =>
+    match u64? k, u64? v, u64? r, triples? rest with
+    | some k, some v, some r, some rs => some ((k, v, r) :: rs)
+    | _, _, _, _ => none
+  | _ => none
+
+def faultOf (t : Tree) : Option String := t.a.fault
+
+def showKV (l : List (Key × Val)) : String :=
+  " ".intercalate (l.map fun e => s!"{e.1.toNat}:{e.2.toNat}")
+
+/-- after a mutating operation: the model must not have faulted unless the code panicked -/
+def settle (st : St) (t : Tree) (what : String) : Except String (St × Nat) :=
+  match faultOf t with
+  | some m => .error s!"{what}: the implementation went on, the model stops with: {m}"
+  | none => .ok ({ st with t := some t }, 0)
+
+def step (st : St) (_n : Nat) (ws : List String) : Except String (St × Nat) :=
+  match st.pending, ws with
+  | some exp, "node" :: pid :: stored :: leaf :: n :: kv =>
+    match exp, nat? pid, nat? stored, nat? leaf, nat? n, kvs? kv with
+    | [], _, _, _, _, _ => .error s!"walk: the implementation reaches node {pid}, the model has no more nodes"
+    | e :: rest, some pid, some stored, some leaf, some n, some kv =>
+      if stored != pid then .error s!"walk: page {pid} stores page id {stored}"
+      else if e.pid != pid then .error s!"walk: node #{st.seen}: implementation page {pid}, model page {e.pid}"
+      else if e.leaf != (leaf == 1) then .error s!"walk: page {pid}: isLeaf implementation {leaf}, model {e.leaf}"
+      else if e.numKeys != n then .error s!"walk: page {pid}: numKeys implementation {n}, model {e.numKeys}"
+      else if e.kv != kv then .error s!"walk: page {pid}: entries implementation [{showKV kv}], model [{showKV e.kv}]"
+      else .ok ({ st with pending := some rest, seen := st.seen + 1 }, 1)
+    | _, _, _, _, _, _ => .error "bad node record"
+  | some exp, ["endwalk", n] =>
+    match exp, nat? n with
+    | [], some n => if n == st.seen then .ok ({ st with pending := none, seen := 0 }, 1)
+                    else .error s!"endwalk: {n} nodes announced, {st.seen} seen"
+    | e :: _, _ => .error s!"walk: the model has a further node (page {e.pid}) the implementation does not reach"
+    | _, _ => .error "bad endwalk"
+  | some _, _ => .error s!"record inside a walk: {ws}"
+  | none, ["tree", "cfg", ps, mk] =>
+    match nat? ps, nat? mk with
+    | some ps, some mk =>
+      let cfg := Cfg.ofPageSize ps
+      if cfg.maxKeys == mk then .ok ({ st with cfg := cfg, t := none }, 1)
+      else .error s!"maxKeys for page size {ps}: implementation {mk}, model {cfg.maxKeys}"
+    | _, _ => .error "bad cfg"
+  | none, ["new", "mem"] => settle st (newTree st.cfg) "NewTree"
+  | none, ["new", "file"] => settle st (newTreeFile st.cfg) "NewTreePersistent"
+  | none, ws =>
+    match st.t with
+    | none => .error s!"operation before new: {ws}"
+    | some t =>
+      match ws with
+      | ["set", k, v, out] =>
+        match u64? k, u64? v with
+        | some k, some v =>
+          let t' := set st.cfg t k v
+          if out == "panic" then
+            match faultOf t' with
+            | some _ => .ok (st, 1)       -- the tree is unchanged by the up-front check
+            | none => .error s!"Set({k.toNat},{v.toNat}): implementation panics, model does not"
+          else settle st t' s!"Set({k.toNat},{v.toNat})"
+        | _, _ => .error "bad set"
+      | ["get", k, out] =>
+        match u64? k with
+        | some k =>
+          match get t k, out with
+          | none, "panic" => .ok (st, 1)
+          | none, o => .error s!"Get({k.toNat}): implementation {o}, model panics"
+          | some v, o =>
+            if o == toString v.toNat then .ok (st, 1)
+            else .error s!"Get({k.toNat}): implementation {o}, model {v.toNat}"
+        | none => .error "bad get"
+      | ["del", ts] =>
+        match u64? ts with
+        | some ts => settle st (deleteBelow t ts) s!"DeleteBelow({ts.toNat})"
+        | none => .error "bad del"
+      | "iter" :: n :: rest =>
+        match nat? n, triples? rest with
+        | some n, some tr =>
+          if tr.length != n then .error "bad iter count" else
+          let vis := visits t
+          let obs := tr.map fun x => (x.1, x.2.1)
+          if vis != obs then
+            .error s!"IterateKV: callback saw [{showKV (obs.take 12)}…] ({obs.length} pairs), model [{showKV (vis.take 12)}…] ({vis.length} pairs)"
+          else
+            -- the callback as a function of the key (each key is visited once, checked here)
+            let m : Std.HashMap Key Val := tr.foldl (fun m x => m.insert x.1 x.2.2) {}
+            if m.size != tr.length then .error "IterateKV: a key was handed to the callback twice" else
+            let f : Key → Val → Val := fun k _ => m.getD k 0#64
+            match settle st (iterateKV t f) "IterateKV" with
+            | .ok (st', _) => .ok (st', 1)
+            | .error e => .error e
+        | _, _ => .error "bad iter"
+      | ["reset"] => settle st (reset st.cfg t.a.curSz) "Reset"
+      | ["stats", lk, np, pf, al, by'] =>
+        match int? lk, int? np, int? pf, nat? al, int? by' with
+        | some lk, some np, some pf, some al, some by' =>
+          let obs : Stats := { numLeafKeys := lk, numPages := np, numPagesFree := pf, allocated := al, bytes := by' }
+          let m := stats st.cfg t
+          if obs == m then .ok (st, 1)
+          else .error s!"Stats: implementation leafKeys={lk} pages={np} free={pf} allocated={al} bytes={by'}; model leafKeys={m.numLeafKeys} pages={m.numPages} free={m.numPagesFree} allocated={m.allocated} bytes={m.bytes}"
+        | _, _, _, _, _ => .error "bad stats"
+      | "walk" :: np :: fp :: nf :: free =>
+        match nat? np, nat? fp, nat? nf, free.mapM nat? with
+        | some np, some fp, some nf, some free =>
+          if free.length != nf then .error "bad walk: free count" else
+          if np != t.a.nextPage then .error s!"walk: nextPage implementation {np}, model {t.a.nextPage}" else
+          if fp != t.a.freeHead then .error s!"walk: freePage implementation {fp}, model {t.a.freeHead}" else
+          if free != t.a.free then .error s!"walk: free list implementation {free}, model {t.a.free}" else
+          .ok ({ st with pending := some (walk t), seen := 0 }, 1)
+        | _, _, _, _ => .error "bad walk"
+      | ["reopen", sz] =>
+        match nat? sz with
+        | some sz =>
+          if sz != t.a.curSz then .error s!"reopen: file size {sz}, model buffer capacity {t.a.curSz}" else
+          -- the page table, tabulated once (encodePage searches the tree)
+          let n := t.a.nextPage + 2
+          let arr : Array Page := Array.ofFn (n := n) fun i => encodePage t i.val
+          let file : File := { page := fun q => arr[q]?.getD Page.unused, size := sz }
+          match openFile st.cfg file with
+          | none => .error "reopen: the model's reinit panics / cannot represent the file"
+          | some t' =>
+            match settle st t' "NewTreePersistent (reopen)" with
+            | .ok (st', _) => .ok (st', 1)
+            | .error e => .error e
+        | none => .error "bad reopen"
+      | _ => .error s!"unknown record {ws}"
+
+def run (h : IO.FS.Stream) : IO Verdict := do
+  let v ← runLines h ({} : St) step
+  return v
 
 end Drive.Tree
